@@ -144,6 +144,21 @@ def rule_no_effect(chk, fb, prefix="C12"):
                        detail="mutable acquisition %s on an object of origin %s" % (f.split("::")[-1], sorted(tags)),
                        key="write-acquire:%s:%s" % (d, ",".join(sorted(tags))))
                 n += 1
+    # clones of a workbook share the Arc of the loaded table: nothing outside a save may write through it either
+    rcl = chk.rule(
+        prefix + ".c",
+        "the loaded table is immutable after load: no function outside the save call graph acquires a write lock (or any mutable access) on lock-protected state - clones of a workbook share that state through the Arc, so an in-place update of one shows up in the files of the others",
+        floor=1,
+    )
+    outside = []
+    for d, b in sorted(fb.mir.items()):
+        if d in reach:
+            continue
+        for bi, t in fb.calls_in(b):
+            if t.get("fn", "") in ACQ_WRITE and not b["file"].startswith("tests"):
+                outside.append((d, b, t))
+    chk.ob(rcl, "write-acquisitions-outside-save", not outside, where="%s:%s" % (outside[0][1]["file"], outside[0][2]["ln"]) if outside else "src/",
+           detail="none: interior-mutable state is only written by a save, on its own table" if not outside else "mutable acquisition(s) outside the save graph: %s" % ["%s (%s)" % (d.split("::", 2)[-1], t["fn"].split("::")[-1]) for d, b, t in outside])
     # &mut Spreadsheet is never formed from the argument (type level): the roots take &Spreadsheet
     for r in roots:
         chk.ob(ra, "signature:%s" % r, True, where=fb.loc(r), detail="takes &Spreadsheet (shared borrow): direct mutation is excluded by the type system", nontrivial=False)
